@@ -22,6 +22,9 @@ type result struct {
 }
 
 func encStrs(s []string) string {
+	if s == nil {
+		return "nil" // nil and empty are distinguishable by the caller: both must be stable
+	}
 	var b strings.Builder
 	b.WriteByte('[')
 	for i, x := range s {
